@@ -135,6 +135,103 @@ def _chain(chk):
                   why=f"{mname} no longer walks the same stage table as fit/transform")
 
 
+def _stack_transform_dims(chk):
+    """transform stacks new data with the dimension lists RECORDED AT FIT (dims_mapping), role by role: lists taken from the
+    incoming data follow its own dimension order, so the columns of the 2-D matrix no longer line up with the fitted features"""
+    pm = chk.pm
+    st = pm.cls("xeofs.preprocessing.stacker.Stacker")
+    stack = st.methods["_stack"]
+    tr = st.methods.get("transform")
+    chk.require(tr is not None, "Stacker.transform vanished")
+    trf = FuncFacts.of(tr)
+    from .common import bind_args as _bind2
+    scalls = [c for c in calls_in(tr) if is_self_attr(c.func, "_stack")]
+    chk.require(len(scalls) >= 1, "Stacker.transform: call of _stack vanished")
+    for c in scalls:
+        b = _bind2(stack, c)
+        for pn, role in (("sample_dims", "self.sample_name"), ("feature_dims", "self.feature_name")):
+            a = b.get(pn)
+            ps = trf.paths(a, spine_only=True) if a is not None else []
+            okd = bool(ps) and all(p.atom.kind == "selfattr" and p.atom.name == "self.dims_mapping" and p.ops and p.ops[0].kind == "subscript"
+                                   and {q.atom.name for q in trf.paths(p.ops[0].node.slice, spine_only=True)} == {role} for p in ps)
+            chk.check(okd, "MIRROR.state.stack.transform_dims", tr, c, construct=f"transform stacks with dims_mapping[{role.split('.')[-1]}] as {pn}",
+                      why=f"transform stacks new data with {pn} = {norm(a) if a is not None else None} ({sorted({p.atom.name for p in ps})}) instead of the list recorded at fit: "
+                          "data whose dimensions come in another order is stacked into differently ordered columns and every value is attached to the wrong label")
+
+
+def _unstack_guarded(chk, rule="MIRROR.state.stack.guarded"):
+    """The inverse maps receive 2-D results of the model (stacked ``sample`` dimension) as well as reconstructions made
+    from score arrays the user passes in, which carry the ORIGINAL sample dimension already.  Every rename of the stacked
+    sample name back to the original dimension is therefore conditional on the stacked name being a dimension of the
+    data (sibling rule: the DataArray variant tests ``sample_name in X.dims``; a variant that renames unconditionally
+    raises for inverse_transform(scores()) of a model fitted on that container kind)."""
+    pm = chk.pm
+    st = pm.cls("xeofs.preprocessing.stacker.Stacker")
+    from .common import atomic_conditions, class_closure, holds, resolve_sources
+    n = 0
+    for mname in ("_unstack_to_dataarray", "_unstack_to_dataset_data", "_unstack_to_dataset_components"):
+        m = st.methods.get(mname)
+        chk.require(m is not None, f"Stacker.{mname} vanished")
+        for g in class_closure(pm, st, m):
+            gf = FuncFacts.of(g)
+            for c in calls_in(g):
+                if not (isinstance(c.func, ast.Attribute) and c.func.attr == "rename" and c.args and isinstance(c.args[0], ast.Dict)):
+                    continue
+                for k in c.args[0].keys:
+                    if k is None or resolve_sources(pm, st, g, k) != {"self.sample_name"}:
+                        continue
+                    n += 1
+                    guarded = False
+                    for t, pol in atomic_conditions(gf, c):
+                        if holds(t, pol, "In", lambda e: resolve_sources(pm, st, g, e) == {"self.sample_name"}, lambda e: norm(e).endswith(".dims")):
+                            guarded = True
+                    chk.check(guarded, rule, g, c, construct=f"{mname}: rename of the stacked sample name only where it is a dimension of the data",
+                              why=f"{g.qualname} renames the stacked sample dimension unconditionally: a reconstruction made from user-provided scores carries the original "
+                                  "sample dimension, so inverse_transform(scores()) raises for this container kind (the sibling variant tests `sample_name in X.dims` first)")
+    chk.require(n >= 2, f"{rule}: only {n} renames of the stacked sample name found in the unstack functions (anchor vanished)")
+
+
+def _dataset_layout(chk, rule="MIRROR.state.stack.dataset_layout"):
+    """``Dataset.to_stacked_array`` lays the columns out in the order of the Dataset's variables and of each variable's own
+    dimensions (the ``feature_dims`` list is not used for Datasets).  At fit that order defines the feature axis; data
+    handed to ``transform`` later may hold the same variables in another order or transposed, and everything after the
+    stacker works by position.  Stacker.fit therefore records the layout (something derived from ``X.data_vars``) and
+    Stacker.transform brings a Dataset into that layout before it stacks."""
+    pm = chk.pm
+    st = pm.cls("xeofs.preprocessing.stacker.Stacker")
+    stack, fit, tr = st.methods["_stack"], st.methods["fit"], st.methods["transform"]
+    from .common import class_closure
+    writer = [c for g in class_closure(pm, st, stack) for c in calls_in(g) if isinstance(c.func, ast.Attribute) and c.func.attr == "to_stacked_array"]
+    if not writer:
+        chk.ok(rule, stack, None, construct="<Datasets are not stacked with to_stacked_array: rule not applicable>", nontrivial=False)
+        return
+    ffit, ftr = FuncFacts.of(fit), FuncFacts.of(tr)
+    fdata = [p for p in fit.params if p != "self"][0]
+    layout_attrs = set()
+    for stt in ffit.statements():
+        tgt = stt.targets[0] if isinstance(stt, ast.Assign) and len(stt.targets) == 1 else stt.target if isinstance(stt, ast.AnnAssign) and stt.value is not None else None
+        if tgt is None or not is_self_attr(tgt):
+            continue
+        if any(isinstance(n, ast.Attribute) and n.attr in ("data_vars", "variables") and isinstance(n.value, ast.Name) and n.value.id == fdata for n in ast.walk(stt.value)) or \
+                any(isinstance(n, ast.Call) and isinstance(n.func, ast.Name) and n.func.id == "list" and n.args and isinstance(n.args[0], ast.Name) and n.args[0].id == fdata for n in ast.walk(stt.value)):
+            layout_attrs.add(tgt.attr)
+    scalls = [c for c in calls_in(tr) if is_self_attr(c.func, "_stack")]
+    chk.require(len(scalls) >= 1, "Stacker.transform: call of _stack vanished")
+    data = [p for p in tr.params if p != "self"][0]
+    used = set()
+    for c in scalls:
+        a = c.args[0] if c.args else call_kwargs(c).get(data)
+        for p in ftr.paths(a, spine_only=False) if a is not None else []:
+            if p.atom.kind == "selfattr" and p.atom.name.split(".")[-1] in layout_attrs:
+                used.add(p.atom.name.split(".")[-1])
+    ok = bool(layout_attrs) and bool(used)
+    chk.check(ok, rule, tr, scalls[0], construct="transform brings a Dataset into the variable / dimension order recorded at fit before stacking",
+              why=(f"Stacker.fit records no layout of a Dataset (nothing derived from {fdata}.data_vars)" if not layout_attrs else
+                   f"Stacker.transform stacks the Dataset as it comes (the recorded layout {sorted(layout_attrs)} does not reach _stack)") +
+                  ": to_stacked_array follows the order of the variables and of each variable's dimensions, so the same data with variables re-ordered or transposed "
+                  "is projected column by column on the wrong features")
+
+
 def _stacker(chk):
     pm = chk.pm
     st = pm.cls("xeofs.preprocessing.stacker.Stacker")
@@ -214,24 +311,13 @@ def _stacker(chk):
                 pairs.add((next(iter(ks)), next(iter(vs))))
     chk.check({("self.sample_name", "sample_dims"), ("self.feature_name", "feature_dims")} <= pairs, "MIRROR.state.stack.mapping", fit, fit.node,
               construct="fit records {sample_name: sample_dims, feature_name: feature_dims}", why="dims_mapping no longer records which original dimensions each stacked name stands for")
-    # transform stacks new data with the dimension lists RECORDED AT FIT (dims_mapping), role by role: lists taken from the
-    # incoming data follow its own dimension order, so the columns of the 2-D matrix no longer line up with the fitted features
-    tr = st.methods.get("transform")
-    chk.require(tr is not None, "Stacker.transform vanished")
-    trf = FuncFacts.of(tr)
-    from .common import bind_args as _bind2
-    scalls = [c for c in calls_in(tr) if is_self_attr(c.func, "_stack")]
-    chk.require(len(scalls) >= 1, "Stacker.transform: call of _stack vanished")
-    for c in scalls:
-        b = _bind2(stack, c)
-        for pn, role in (("sample_dims", "self.sample_name"), ("feature_dims", "self.feature_name")):
-            a = b.get(pn)
-            ps = trf.paths(a, spine_only=True) if a is not None else []
-            okd = bool(ps) and all(p.atom.kind == "selfattr" and p.atom.name == "self.dims_mapping" and p.ops and p.ops[0].kind == "subscript"
-                                   and {q.atom.name for q in trf.paths(p.ops[0].node.slice, spine_only=True)} == {role} for p in ps)
-            chk.check(okd, "MIRROR.state.stack.transform_dims", tr, c, construct=f"transform stacks with dims_mapping[{role.split('.')[-1]}] as {pn}",
-                      why=f"transform stacks new data with {pn} = {norm(a) if a is not None else None} ({sorted({p.atom.name for p in ps})}) instead of the list recorded at fit: "
-                          "data whose dimensions come in another order is stacked into differently ordered columns and every value is attached to the wrong label")
+    _stack_transform_dims(chk)
+    _unstack_guarded(chk)
+    _dataset_layout(chk)
+    # ... and only after the labels along every feature dimension have been compared IN ORDER with the recorded ones
+    from .common import ordered_label_comparison
+    ordered_label_comparison(chk, "MIRROR.state.stack.transform_coords", st.methods["_validate_transform_feature_coords"], ("coords_in",),
+                             "new data holding the fitted labels in another order along a feature dimension are stacked into differently ordered columns: every value is attached to the wrong label")
     # dataset variant: variable level name
     writer = [c for c in calls_in(stack) if isinstance(c.func, ast.Attribute) and c.func.attr == "to_stacked_array"]
     chk.require(len(writer) == 1, "Stacker._stack: to_stacked_array vanished")
